@@ -275,6 +275,7 @@ func exec1(rec any) *core.Outcome {
 			return out
 		}
 		oh = append(oh, digestFiles(tr.res))
+		out.ProbeN("overload_family_calls", tr.res.C.Overloaded)
 	}
 	// ... and after it: contamination left behind by the concurrent run
 	for i := range r.Tasks {
